@@ -18,13 +18,25 @@ import registry
 
 
 # --------------------------------------------------------------------------------------------
-def harness_obligations(hspec):
+def harness_obligations(hspec, ws=None):
     """Named obligations of one harness = the quoted names `Cnn.xxx` inside the harness function's
-    body in its source file, plus the `also` list (assertions living in woven probes/helpers)."""
-    if "obligations" in hspec:
+    body in its source file, plus the `also` list (assertions living in woven probes/helpers).
+    For harness files generated at weave time (file == "GEN") the woven workspace is searched."""
+    if hspec.get("obligations"):
         return list(hspec["obligations"])
-    src = open(os.path.join(vlib.VERIF, hspec["file"])).read()
-    m = re.search(r"fn\s+%s\s*\(" % re.escape(hspec["name"]), src)
+    src, m = None, None
+    if hspec["file"] == "GEN":
+        if ws is None:
+            return [hspec["name"] + ".generated"]
+        import glob
+        for f in glob.glob(os.path.join(ws.ws, "*", "src", "verif_*.rs")):
+            txt = open(f).read()
+            mm = re.search(r"fn\s+%s\s*\(" % re.escape(hspec["name"]), txt)
+            if mm:
+                src, m = txt, mm
+    else:
+        src = open(os.path.join(vlib.VERIF, hspec["file"])).read()
+        m = re.search(r"fn\s+%s\s*\(" % re.escape(hspec["name"]), src)
     if not m:
         raise Undecided(hspec["name"], "harness function not found in " + hspec["file"])
     i = src.index("{", m.end())
@@ -90,6 +102,7 @@ def run_kani_group(prop, grp, tier, obligations, undecided, failures, checker_cm
         features = grp.get("features", unit0.get("features"))
         crate = grp["crate"]
         timeout = max(h.get("timeout", 300) for h in hs) + 600
+        unit0 = next((registry.UNITS[u] for u in grp["units"] if "features" in registry.UNITS[u]), unit0)
         res, meta, raw = vlib.kani_run(
             ws, crate, [h["name"] for h in hs], features=features, jobs=grp.get("jobs", 8),
             timeout=timeout, harness_timeout=max(h.get("timeout", 300) for h in hs),
@@ -104,7 +117,7 @@ def run_kani_group(prop, grp, tier, obligations, undecided, failures, checker_cm
                 reason = "timeout before any harness finished"
             undecided.append({"obligation": f"{crate}:*", "reason": reason, "detail": tail})
         for h in hs:
-            names = harness_obligations(h)
+            names = harness_obligations(h, ws)
             r = res.get(h["name"])
             comp = h.get("completeness", "complete")
             if r is None or r["status"] not in ("SUCCESSFUL", "FAILED"):
